@@ -2,7 +2,7 @@ import Gimli.Lemmas.WCfiHeader
 /-!
 # C14 — Written frame tables read back with the same CIEs, FDEs and unwind rows
 
-Property theorems only (helper lemmas: `Gimli/Lemmas/{WCfi,WCfiSleb}.lean`).
+Property theorems only (helper lemmas: `Gimli/Lemmas/{WCfi,WCfiTable,WCfiHeader}.lean`).
 
 * **Model** (`Gimli/Model/WCfi.lean`, tied to `src/write/cfi.rs` and
   `Writer::write_eh_pointer(_data)` by the byte-exact correspondence run):
@@ -217,64 +217,29 @@ theorem fde_offsets_nondecreasing (e : Endian) (caf : Nat) (daf : Int) :
 
 /-! ## 5. entries are padded -/
 
-/-- **padding_aligned (what the writer guarantees, every format).** For every CIE and FDE the
-writer emits (address size 1, 2, 4 or 8; section below 2^64 bytes): the entry is its length field
-followed by exactly `length` bytes, and `word_size + length ≡ 0 (mod address_size)` where
-`word_size` is 4 / 8 for the 32- / 64-bit format.  The padding bytes are `DW_CFA_nop` (0). -/
-theorem padding_word_aligned (m : Mode) (e : Endian) (eh : Bool) (c : WCie) (bs : Bytes)
+/-- **padding_aligned.** For every CIE and every FDE the writer emits — both sections, both
+formats, address size 1, 2, 4 or 8 (section below 2^64 bytes): *(length-field size + length) ≡ 0
+(mod address size)*, i.e. the whole entry, 4- or 12-byte initial length included, is a multiple of
+the address size, so that entries written back to back stay aligned.  The entry is its length
+field followed by exactly `length` bytes, and the padding bytes are `DW_CFA_nop` (0).
+(Full strength since `fix: pad 64-bit format CFI entries to the address size`; before it the
+64-bit format with 8-byte addresses gave 4 mod 8.) -/
+theorem padding_aligned (m : Mode) (e : Endian) (eh : Bool) (c : WCie) (bs : Bytes)
     (ha : c.addressSize = 1 ∨ c.addressSize = 2 ∨ c.addressSize = 4 ∨ c.addressSize = 8)
     (hlen : bs.length < 2 ^ 64) :
     (∀ off, cieWrite m e eh c off = .ok bs →
-      (c.format.wordSize + (bs.length - lenFieldSize c.format)) % c.addressSize = 0) ∧
+      bs.length % c.addressSize = 0 ∧ EntryShape m e c.format c.addressSize bs) ∧
     (∀ off cieOff f, fdeWrite m e eh off cieOff c f = .ok bs →
-      (c.format.wordSize + (bs.length - lenFieldSize c.format)) % c.addressSize = 0) :=
-  ⟨fun off h => (shape_aligned (cieWrite_shape m e eh c off bs h) ha hlen).1,
-   fun off cieOff f h => (shape_aligned (fdeWrite_shape m e eh off cieOff c f bs h) ha hlen).1⟩
+      bs.length % c.addressSize = 0 ∧ EntryShape m e c.format c.addressSize bs) :=
+  ⟨fun off h => ⟨(shape_aligned (cieWrite_shape m e eh c off bs h) ha hlen).1, cieWrite_shape m e eh c off bs h⟩,
+   fun off cieOff f h => ⟨(shape_aligned (fdeWrite_shape m e eh off cieOff c f bs h) ha hlen).1,
+     fdeWrite_shape m e eh off cieOff c f bs h⟩⟩
 
-/-- **padding_aligned, partial.** *(length-field size + length) ≡ 0 (mod address size)* — i.e. the
-whole entry is a multiple of the address size, so that entries written back to back stay aligned —
-holds for every entry in the 32-bit format, and in the 64-bit format when the address size
-divides 4.
-
-Full-strength statement (not provable, the code violates it — recorded finding C14-2): the same
-for every format and address size.  The gap is exactly the 64-bit format with 8-byte addresses:
-the writer pads `8 + length` while the initial length occupies 12 bytes; see
-`padding_dwarf64_counterexample`. -/
-theorem padding_aligned_partial (m : Mode) (e : Endian) (eh : Bool) (c : WCie) (bs : Bytes)
-    (ha : c.addressSize = 1 ∨ c.addressSize = 2 ∨ c.addressSize = 4 ∨ c.addressSize = 8)
-    (hf : c.format = .dwarf32 ∨ c.addressSize ≠ 8)
-    (hlen : bs.length < 2 ^ 64) :
-    (∀ off, cieWrite m e eh c off = .ok bs → bs.length % c.addressSize = 0) ∧
-    (∀ off cieOff f, fdeWrite m e eh off cieOff c f = .ok bs → bs.length % c.addressSize = 0) := by
-  have key : ∀ {bs : Bytes}, EntryShape m e c.format c.addressSize bs → bs.length < 2 ^ 64 →
-      bs.length % c.addressSize = 0 := by
-    intro bs hs hl
-    obtain ⟨h1, h2⟩ := shape_aligned hs ha hl
-    cases hfm : c.format with
-    | dwarf32 =>
-      rw [hfm] at h1 h2
-      simp only [Format.wordSize, lenFieldSize] at h1 h2
-      have : 4 + (bs.length - 4) = bs.length := by omega
-      rw [this] at h1; exact h1
-    | dwarf64 =>
-      rw [hfm] at h1 h2
-      simp only [Format.wordSize, lenFieldSize] at h1 h2
-      have h8 : c.addressSize ≠ 8 := by
-        rcases hf with h | h
-        · rw [hfm] at h; cases h
-        · exact h
-      rcases ha with h | h | h | h <;> rw [h] at h1 ⊢ <;> omega
-  exact ⟨fun off h => key (cieWrite_shape m e eh c off bs h) hlen,
-         fun off cieOff f h => key (fdeWrite_shape m e eh off cieOff c f bs h) hlen⟩
-
-/-- **the gap of `padding_aligned` (finding C14-2), pinned.** A version 4 CIE in the 64-bit format
-with 8-byte addresses: the writer emits 28 bytes — 12 bytes of initial length plus `length` = 16 —
-which is 4 modulo the address size. -/
-theorem padding_dwarf64_counterexample :
-    ∃ bs, cieWrite .release .little false
-        { format := .dwarf64, version := 4, addressSize := 8, codeAlign := 1, dataAlign := -8, raReg := 16 } 0 = .ok bs ∧
-      bs.length = 28 ∧ bs.length % 8 = 4 := by
-  refine ⟨_, rfl, ?_, ?_⟩ <;> decide
+/-- the former witness of the padding defect, now aligned: a version 4 CIE in the 64-bit format with
+8-byte addresses is written as 32 bytes (12 bytes of initial length + `length` = 20) -/
+example : ∃ bs, cieWrite .release .little false
+    { format := .dwarf64, version := 4, addressSize := 8, codeAlign := 1, dataAlign := -8, raReg := 16 } 0 = .ok bs ∧
+    bs.length = 32 := ⟨_, rfl, by decide⟩
 
 /-! ## 6. identical CIEs share one id and are emitted once, when first needed -/
 
@@ -371,20 +336,17 @@ theorem eh_pointer_roundtrip (m : Mode) (e : Endian) (pos v enc size : Nat) (p :
     parseEncodedPointer m e enc p pos (bs ++ rest) = .ok ((v, enc / 128 % 2 = 1), rest) :=
   ehPointer_roundtrip m e pos v enc size p bs rest hs hv hp hb h
 
-/-- **cie_header_roundtrip, partial.** For every CIE the writer emits — both sections, versions
-1/3/4, both formats, every factor, every augmentation combination — the small Spec reader
-(`Spec.WCfi.readCieHeader`: DWARF 5 §6.4.1 / LSB layout) finds, field by field, what was
-supplied: format, a length field equal to the entry size minus the length field, the CIE id,
+/-- **cie_header_roundtrip.** For every CIE the writer emits — both sections, versions 1/3/4, both
+formats, every factor, every return address register, every augmentation combination — the small
+Spec reader (`Spec.WCfi.readCieHeader`: DWARF 5 §6.4.1 / LSB layout) finds, field by field, what
+was supplied: format, a length field equal to the entry size minus the length field, the CIE id,
 version, the augmentation string `z[L][P][R][S]`, the address size (version 4), both alignment
-factors, the return address register, the augmentation data, and after them exactly the emitted
-initial instructions followed by the padding nops.
-
-Full-strength statement (not provable, the code violates it — recorded finding C14-1): the same
-without hypothesis `hra`.  The gap: in `.eh_frame` (version 1) the writer emits the return
-address register as ULEB128 where a version 1 CIE has a single byte, which differs from register
-128 on; see `eh_ra_counterexample`. -/
-theorem cie_header_roundtrip_partial (m : Mode) (e : Endian) (eh : Bool) (c : WCie) (off : Nat) (bs : Bytes)
-    (hr : c.InRange) (hra : eh = true → c.raReg.toNat < 128) (hlen : bs.length < 2 ^ 64)
+factors, the return address register (one byte in version 1 — in `.eh_frame` too since
+`fix: write the .eh_frame CIE return address register as a byte` — ULEB128 from version 3 on),
+the augmentation data, and after them exactly the emitted initial instructions followed by the
+padding nops. -/
+theorem cie_header_roundtrip (m : Mode) (e : Endian) (eh : Bool) (c : WCie) (off : Nat) (bs : Bytes)
+    (hr : c.InRange) (hlen : bs.length < 2 ^ 64)
     (h : cieWrite m e eh c off = .ok bs) :
     ∃ aug ins n pos, cieAugData e c pos = .ok aug ∧ instrsWrite c.dataAlign c.instructions = .ok ins ∧
       readCieHeader e eh bs = .ok
@@ -394,18 +356,18 @@ theorem cie_header_roundtrip_partial (m : Mode) (e : Endian) (eh : Bool) (c : WC
           codeAlign := c.codeAlign, dataAlign := c.dataAlign, raReg := c.raReg.toNat,
           augData := if c.hasAugmentation then some aug.tail else none,
           instructions := ins ++ List.replicate n 0 } :=
-  cie_header_roundtrip_main m e eh c off bs hr hra hlen h
+  cie_header_roundtrip_main m e eh c off bs hr hlen h
 
-/-- **the gap of `cie_header_roundtrip` (finding C14-1), pinned.** An `.eh_frame` CIE with return
-address register 128 and an `R` augmentation (`DW_EH_PE_pcrel|sdata4`): the writer emits the two
-bytes `80 01` for the register; a reader of the version 1 layout takes `80` as the register and
-`01` as the augmentation length, so the FDE pointer encoding it finds is `01`, not `1b`. -/
-theorem eh_ra_counterexample :
-    ∃ bs hdr, cieWrite .release .little true
-        { format := .dwarf32, version := 1, addressSize := 8, codeAlign := 1, dataAlign := -8, raReg := 128,
-          fdeAddressEncoding := 0x1b } 0 = .ok bs ∧
-      readCieHeader .little true bs = .ok hdr ∧ hdr.raReg = 128 ∧ hdr.augData = some [0x01] := by
+/-- the former witness of the return-address-register defect: an `.eh_frame` CIE with register 128
+now carries the single byte `80`, and the reader finds register 128 and the `R` encoding `1b` -/
+example : ∃ bs hdr, cieWrite .release .little true
+    { format := .dwarf32, version := 1, addressSize := 8, codeAlign := 1, dataAlign := -8, raReg := 128,
+      fdeAddressEncoding := 0x1b } 0 = .ok bs ∧
+    readCieHeader .little true bs = .ok hdr ∧ hdr.raReg = 128 ∧ hdr.augData = some [0x1b] := by
   refine ⟨_, _, rfl, rfl, ?_, ?_⟩ <;> decide
+
+/-- a version 1 CIE cannot carry a return address register above 255: `ValueTooLarge`, in both sections -/
+example : cieWrite .release .little true { version := 1, raReg := 256 } 0 = .err .wValueTooLarge := by decide
 
 /-- **fde_header_roundtrip.** For every FDE the writer emits — both sections and formats, plain
 or `R`-encoded address fields, with or without an LSDA — for a constant address and LSDA that fit
